@@ -92,19 +92,6 @@ pub fn x_retain_nonempty(q: &mut Qualifiers)
     ensures final(q).qualifiers@ == nonempty_part(old(q).qualifiers@)
 { unimplemented!() }
 
-/// `q.try_get_typed::<Checksum>()`  = `q.get("checksum").map(Checksum::try_from).transpose()`
-/// (ASSUMED composition of Option::map / transpose; Qualifiers::get and Checksum::try_from are verified in groups qual / cksum)
-#[verifier::external_body]
-pub fn x_try_get_typed_checksum<'a>(q: &'a Qualifiers) -> (r: Result<Option<Checksum<'a>>, ParseError>)
-    requires wf_seq(q.qualifiers@)
-    ensures
-        !has_key(q.qualifiers@, checksum_key()) ==> r is Ok && r->Ok_0 is None,
-        has_key(q.qualifiers@, checksum_key()) ==> match ck_parse(q.qualifiers@[pos_of(q.qualifiers@, checksum_key())].1@) {
-            None => r is Err && r->Err_0 == ParseError::InvalidQualifier,
-            Some(m) => r is Ok && r->Ok_0 is Some && r->Ok_0->Some_0.entries() == m,
-        },
-{ unimplemented!() }
-
 pub proof fn lemma_checksum_key()
     ensures "checksum"@ == checksum_key(), valid_key(checksum_key()), lower_ascii_seq(checksum_key()) == checksum_key()
 {
